@@ -21,6 +21,9 @@ mod proposals;
 #[path = "/verif/harness/sequencer/rollupdata.rs"]
 mod rollupdata;
 
+#[path = "/verif/harness/sequencer/checktx_mc.rs"]
+mod checktx_mc;
+
 #[path = "/verif/harness/sequencer/ibc_mc.rs"]
 mod ibc_mc;
 
